@@ -501,3 +501,43 @@ Theorem skip_sound_after_any_history fs hs f req s' ob rs r :
               inputs_of (files DI s') (to_task d) = Some F /\ last_ok DI s' (tr_name r) = Some F.
 Proof. intros Hp. apply invocation_skip_sound; [exact Hp|apply mixed_history_inv]. Qed.
 End Histories.
+
+(* C20: the JSON document of an invocation, in full: exit 0; one entry per task of the request's closure, in an order in which
+   every dependency precedes its dependant; skipped entries carry no commands; the others carry exactly the commands of their
+   definition with their outputs and statuses, all of them 0 *)
+Lemma run_req_json_cmds pick defs s f req0 s' ob rs :
+  (forall k l, Permutation (pick k l) l) ->
+  run_req pick defs s f req0 = (s', ob) -> ob_stdout ob = SDJson rs ->
+  forall r, In r rs -> tr_skipped r = false -> exists d, find_def defs (tr_name r) = Some d /\ tr_cmds r = td_cmds d.
+Proof.
+  intros Hpick. unfold run_req. fold (gdefs defs). destruct (run_order pick (gdefs defs) req0) as [order|e] eqn:Eo; [|intros X; inversion X; subst; discriminate].
+  match goal with |- context [run_i _ _ _ ?o] => set (otasks := o) end.
+  destruct (rr_out DI (run_i (f_force f) (beh_of defs) s otasks)) as [rs0|e] eqn:Er; [|intros X; inversion X; subst; discriminate].
+  intros X HS r Hr Hns. inversion X; subst s' ob. clear X.
+  assert (Ers : rs = map (mk_res defs) rs0).
+  { unfold run_tasks_obs in HS. destruct (report (map (mk_res defs) rs0)) as [ms [[[t c] s0]|]]; cbn [ob_stdout] in HS.
+    - destruct (visible f); discriminate.
+    - destruct (f_json f); [inversion HS; reflexivity|destruct (visible f); discriminate]. }
+  subst rs. apply in_map_iff in Hr. destruct Hr as (r0 & <- & Hr0). cbn [mk_res tr_skipped tr_name tr_cmds] in *. rewrite Hns.
+  assert (Hin : In (r_task r0) (map tname otasks)).
+  { rewrite <- (run_results_names DI deqb_i None digest_i (f_force f) (beh_of defs) s otasks rs0 Er). apply (in_map r_task). exact Hr0. }
+  unfold otasks in Hin. rewrite otasks_names in Hin. apply filter_In in Hin. destruct Hin as [_ Hd].
+  destruct (find_def defs (r_task r0)) as [d|]; [exists d; split; reflexivity|discriminate].
+Qed.
+
+Theorem json_is_the_run pick defs vars s f req s' ob rs :
+  (forall k l, Permutation (pick k l) l) ->
+  invoke pick defs vars s f req = (s', ob) -> ob_stdout ob = SDJson rs ->
+  ob_exit ob = 0 /\
+  valid_run (gdefs defs) (effective_request defs f req) (map tr_name rs) /\
+  (forall r, In r rs -> tr_skipped r = true -> tr_cmds r = []) /\
+  (forall r, In r rs -> tr_skipped r = false -> exists d, find_def defs (tr_name r) = Some d /\ tr_cmds r = td_cmds d) /\
+  ~ has_failure rs.
+Proof.
+  intros Hpick H HS.
+  destruct (json_lists_the_run pick defs vars s f req s' ob rs H HS) as (E0 & _ & Sk & NF).
+  destruct (invocation_runs_the_closure pick defs vars s f req s' ob rs Hpick H HS) as (VR & _).
+  split; [exact E0|]. split; [exact VR|]. split; [exact Sk|]. split; [|exact NF].
+  destruct (invoke_cases _ _ _ _ _ _ _ _ H) as [(_ & N)|(req' & X)]; [exfalso; exact (N rs HS)|].
+  exact (run_req_json_cmds pick defs s f req' s' ob rs Hpick X HS).
+Qed.
